@@ -107,7 +107,7 @@ func main() {
 			if *prop != "" && !contains(fc.Props, *prop) {
 				continue
 			}
-			name := fn.Pkg.Pkg.Name() + "." + fn.RelString(fn.Pkg.Pkg)
+			name := qualName(fn)
 			if re != nil && !re.MatchString(name) {
 				continue
 			}
